@@ -124,6 +124,14 @@ CONFIG = {
         'level_text': 'Theorems: validation accepts only genesis states whose five keyed lists have pairwise distinct store keys; for every validated and initialised genesis the export has the same roles and flags, the documented defaults for absent counters and a permutation of each list; for every state reachable from an initialised genesis, import of its export reproduces the store up to the pending-owner slot (store well-formedness and exportability are proved invariants). The full round-trip statement is refuted for the code as it stands (no genesis field for the pending owner: recorded known finding), with the witness in the property file. Tied to the Go code by differential execution of Validate / InitGenesis / ExportGenesis on generated genesis states with colliding keys in each list, and by evaluating export -> import on the real store (raw key/value comparison) after histories.',
         'assumptions': ['token-pair keys are Keccak-256 digests: distinct (domain, token) pairs share a key only on a hash collision, which validation (comparing the derived keys) would reject anyway'],
     },
+    'C19': {
+        'profiles': [('registry', 25, 600), ('admin-random', 20, 400)],
+        'rules': [(r'Q:.*', 'QR', None), (r'TX:(EnableAttester|DisableAttester|LinkTokenPair|UnlinkTokenPair|AddRemoteTokenMessenger|RemoveRemoteTokenMessenger|SetMaxBurnAmountPerMessage)$', 'R', None),
+                  (ANY, 'S', r'^(attester|limit|pair|messenger|nonce) ')],
+        'monitors': [M.mon_c19],
+        'level_text': 'Theorems: each registry transaction is exactly one insert / remove / upsert on its own collection at the key it names (duplicates and unknown removals rejected), the ordered map obeys the exact-map laws (one entry created, exactly that entry deleted, distinct keys independent), key derivations are injective (token pairs: up to a Keccak-256 collision), single-item queries find an entry iff it exists and return the entry stored for that key, scalar queries return the stored values; for the model of cosmos-sdk query.Paginate a page is firstn limit (skipn offset l) resp. firstn limit (from_key cursor l) with the next key and total, and following next_key (key mode) or advancing the offset (offset mode) returns every entry exactly once in key order for every page size >= 1, the hypotheses (sorted, non-empty keys) being invariants of every reachable store. Tied to the Go keeper by differential execution of registry histories over colliding key pools with all queries and complete paging in both modes, forward and reverse; an independent reference (maps maintained from transaction outcomes, own Keccak) runs on the implementation trace.',
+        'assumptions': ['query.Paginate is modelled from the cosmos-sdk v0.50.7 source (Lib/Paginate.v), not verified; offset + limit < 2^64 in the page theorems (the uint64 wrap is written into the model)'],
+    },
     'C10': {
         'profiles': [('roles-matrix', 324, 324), ('admin-random', 30, 600)],
         # the property speaks about submitters who do not hold the role: only those steps are compared
